@@ -85,10 +85,9 @@ func alertComparatorHarness(c *CheckCtx, in *Interp) *HarnessResult {
 func init() {
 	checks["C10"] = func(c *CheckCtx) {
 		initKnown()
+		// 3 functions per side did not finish within 40 minutes (solver-chosen map order times the
+		// similarity case splits): both tiers run 2; the thorough tier adds the native validation of witnesses
 		mf := int64(2)
-		if c.Tier == "thorough" {
-			mf = 3
-		}
 		cfgs := []*HarnessCfg{
 			{Name: "VerifC10_MatcherOrder", Pkg: diffPkg, Solver: "cvc5", TimeoutMs: 60000, MaxPaths: 2000000, MapOrderSym: true, EngineReplay: true,
 				Params: map[string]int64{"maxfuncs": mf}, Stubs: matcherStubs()},
@@ -96,7 +95,7 @@ func init() {
 		}
 		c.Assumptions = append(c.Assumptions,
 			"partial: the sources of run-to-run variation that are data - Go's map iteration order inside diff.MatchFunctionsByTopology (two executions with independent solver-chosen orders must agree) and the arrival order of per-file alert batches (the 'Deterministic Sort' comparator of cli.RunScanLogic must be a total order on JSON-visible fields)",
-			"files of up to 2 (thorough 3) functions per side, analyses stubbed as in C09; alerts with string fields of up to 2 bytes",
+			"files of up to 2 functions per side (3 did not finish within 40 minutes), analyses stubbed as in C09; alerts with string fields of up to 2 bytes",
 			"worker scheduling of the per-file check workers at block granularity: ProcessFilesParallel is run twice over three files (loader/read failures symbolic, strict mode symbolic), each time with the workers executed to completion in an independent solver-chosen order; the two reports must agree. Interleavings inside a worker are not explored",
 			"goroutine scheduling inside go/packages, the JSON encoder, and everything downstream of C01 (fingerprint determinism) are NOT covered")
 		c.runModeT([]string{"pkg/diff", "internal/cli"}, cfgs)
